@@ -87,7 +87,9 @@ func tokenizeStream(src io.Reader, normalize bool, dict *dictionary, updateDict 
 	idx := 0
 	line := 1 // 1s-based count
 	deferredEOL := false
-	deferredWord := false
+	// heldBreaks is the number of line breaks that were struck out of the
+	// hyphenated word being assembled and are not counted in line yet.
+	heldBreaks := 0
 	// the tokenizer uses a local dictionary to conserve memory while
 	// analyzing the input doc to avoid polluting the global dictionary
 	ld := newDictionary()
@@ -127,6 +129,7 @@ func tokenizeStream(src io.Reader, normalize bool, dict *dictionary, updateDict 
 					if obuf[len(obuf)-1] == '-' {
 						obuf = obuf[0 : len(obuf)-1]
 						deferredEOL = true
+						heldBreaks++
 						continue
 					}
 
@@ -139,6 +142,15 @@ func tokenizeStream(src io.Reader, normalize bool, dict *dictionary, updateDict 
 					appendToDoc(&doc, dict, line, linebuf, ld, normalize, updateDict, linebuf)
 					linebuf = nil
 					obuf = nil
+				}
+				if heldBreaks > 0 {
+					// The hyphenated word ended with this line (it was not continued,
+					// or its remainder is the last word of the line). It has been
+					// credited to the line it started on; now count the line breaks
+					// that were held back for it.
+					line += heldBreaks
+					heldBreaks = 0
+					deferredEOL = false
 				}
 				if !normalize {
 					tokID := dict.getIndex(eol)
@@ -183,22 +195,21 @@ func tokenizeStream(src io.Reader, normalize bool, dict *dictionary, updateDict 
 				idx -= n
 
 				linebuf = append(linebuf, flushBuf(len(linebuf), obuf, normalize, ld))
-				if deferredWord {
+				if heldBreaks > 0 {
+					// This word was hyphenated over a line break.
 					appendToDoc(&doc, dict, line, linebuf, ld, normalize, updateDict, linebuf)
 					linebuf = nil
-					deferredWord = false
 					// Increment the line count now so the remainder token is credited
 					// to the previous line number.
-					line++
+					line += heldBreaks
+					heldBreaks = 0
 				}
 				obuf = make([]byte, 0)
 				continue
 			}
 
-			if deferredEOL {
-				deferredEOL = false
-				deferredWord = true
-			}
+			// A non-space character resumes the hyphenated word, if there is one.
+			deferredEOL = false
 			// perform token mappings for punctuation to emulate
 			// normalizePunctuation. this returns a string and each rune needs to be
 			// injected.
